@@ -126,6 +126,19 @@ def hierarchy_helper(hugr, expr):
     return None
 
 
+def follow_local(fn, src):
+    """follow single-assignment local bindings of a name to the expression it stands for"""
+    seen = set()
+    while isinstance(src, ast.Name) and src.id not in seen:
+        seen.add(src.id)
+        bound = [s.value for s in ast.walk(fn) if isinstance(s, ast.Assign) and len(s.targets) == 1
+                 and isinstance(s.targets[0], ast.Name) and s.targets[0].id == src.id]
+        if len(bound) != 1:
+            break
+        src = bound[0]
+    return src
+
+
 def index_reuse_possible(hugr) -> ast.AST | None:
     """_add_node hands out indices from the free list regardless of the parent"""
     k, m = hugr.find_method("_add_node")
@@ -149,14 +162,7 @@ def r3_r4_order(ctx, rule3="C03.R3", rule4="C03.R4") -> None:
     it = nodes_arg.generators[0].iter if isinstance(nodes_arg, (ast.ListComp, ast.GeneratorExp)) else None
     if isinstance(it, ast.Call) and u(it.func) == "enumerate" and it.args:
         it = it.args[0]
-    src = it
-    seen = set()
-    while isinstance(src, ast.Name) and src.id not in seen:      # follow local bindings
-        seen.add(src.id)
-        bound = [s.value for s in real_body(fn) if isinstance(s, ast.Assign) and isinstance(s.targets[0], ast.Name) and s.targets[0].id == src.id]
-        if not bound:
-            break
-        src = bound[-1]
+    src = follow_local(fn, it)
     helper = hierarchy_helper(hugr, src)
     if reuse is None:
         ctx.ok(rule4, "Hugr._to_serial: emission order", "indices are never reused, index order is creation order")
@@ -178,7 +184,7 @@ def r3_r4_order(ctx, rule3="C03.R3", rule4="C03.R4") -> None:
     lp = loops[0]
     needs_parent_first = any(isinstance(x, ast.Subscript) and u(x.value) == "mapping" and isinstance(x.ctx, ast.Load) and "parent" in u(x.slice)
                              for x in ast.walk(lp))
-    h2 = hierarchy_helper(hugr, lp.iter)
+    h2 = hierarchy_helper(hugr, follow_local(ih, lp.iter))
     if reuse is None or not needs_parent_first:
         ctx.ok(rule4, "Hugr.insert_hugr: visiting order", "no dependence on parent-first order")
     else:
@@ -357,3 +363,50 @@ def run(ctx) -> None:
     r5_order_offset(ctx)
     r6_static_wiring(ctx)
     r2_single_use_iterators(ctx, files=("hugr.hugr.base", "hugr.package", "hugr.ext", "hugr.envelope"), rule="C03.R7")
+
+
+# ---------------------------------------------------------------------------------------
+B = "hugr-py/src/hugr/hugr/base.py"
+D = "hugr-py/src/hugr/build/dfg.py"
+E = "hugr-py/src/hugr/envelope.py"
+X = "hugr-py/src/hugr/ext.py"
+P = "hugr-py/src/hugr/package.py"
+MUTANTS = [
+    dict(name="index-order-emission", file=B, expect="C03.R4",
+         old="        order = self._hierarchy_order()\n        rekey",
+         new="        order = [Node(idx) for idx, data in enumerate(self._nodes) if data is not None]\n        rekey"),
+    dict(name="index-order-insert", file=B, expect="C03.R4",
+         old="        for node in hugr._hierarchy_order():\n            node_data = hugr[node]", new="        for node in hugr:\n            node_data = hugr[node]"),
+    dict(name="order-offset-from-counters", file=B, expect="C03.R5",
+         old="            order_offset = self._order_port_offset(p.node, p.direction)\n            if order_offset is None:",
+         new="            order_offset = None\n            if order_offset is None:"),
+    dict(name="order-offset-ignores-static-input", file=B, expect="C03.R5",
+         old="        has_static_input = isinstance(op, Call | LoadConst | LoadFunc)", new="        has_static_input = isinstance(op, Call | LoadFunc)"),
+    dict(name="order-offset-direction-crossed", file=B, expect="C03.R5",
+         old="        if direction == Direction.OUTGOING:\n            return len(sig.output)", new="        if direction == Direction.OUTGOING:\n            return len(sig.input)"),
+    dict(name="root-parent-minus-one", file=B, expect=["C03.R3", "C03.R2"],
+         old="            parent = rekey[data.parent] if data.parent is not None else rekey[node]",
+         new="            parent = rekey[data.parent] if data.parent is not None else Node(0)"),
+    dict(name="call-static-port-zero", file=D, expect="C03.R6",
+         old="call_n.inp(call_op._function_port_offset()))", new="call_n.inp(0))"),
+    dict(name="load-static-port-one", file=D, expect="C03.R6",
+         old="        self.hugr.add_link(const.out_port(), load.inp(0))", new="        self.hugr.add_link(const.out_port(), load.inp(1))"),
+    dict(name="envelope-excludes-none", file=E, expect="C03.R1",
+         old="            json_str = package._to_serial().model_dump_json()", new="            json_str = package._to_serial().model_dump_json(exclude_none=True)"),
+    dict(name="extension-json-handmade", file=X, expect="C03.R1",
+         old="        return self._to_serial().model_dump_json()", new="        return json.dumps({\"name\": self.name})"),
+    dict(name="raw-edge-target", file=B, expect="C03.R2",
+         old="            return (rekey[src.port.node].idx, s), (rekey[dst.port.node].idx, d)",
+         new="            return (rekey[src.port.node].idx, s), (dst.port.node.idx, d)"),
+    dict(name="post-construction-store", file=P, expect="C03.R1",
+         old="        return self._to_serial().model_dump_json()", new="        ser = self._to_serial()\n        ser.modules = ser.modules[:1]\n        return ser.model_dump_json()"),
+]
+TWINS = [
+    dict(name="twin-order-local", file=B, old="        for node in hugr._hierarchy_order():\n            node_data = hugr[node]",
+         new="        ordered = hugr._hierarchy_order()\n        for node in ordered:\n            node_data = hugr[node]"),
+]
+
+
+def thorough(ctx):
+    from ..selftest import run_battery
+    return run_battery(ctx, MUTANTS, TWINS)
